@@ -3,6 +3,7 @@ package main
 import (
 	"bytes"
 	stded "crypto/ed25519"
+	"crypto/sha512"
 	"math/big"
 
 	"github.com/cloudflare/pat-go/ed25519"
@@ -31,7 +32,7 @@ func runC15(c0 *h.Ctx) {
 			nSeeds = 40
 		}
 		contexts := [][]byte{nil, {0}, {0x41}, rnd(c, 32), rnd(c, 95), rnd(c, 96), rnd(c, 97), rnd(c, 200), rnd(c, 1000)}
-		msgs := [][]byte{nil, {0}, rnd(c, 1), rnd(c, 31), rnd(c, 64), rnd(c, 111), rnd(c, 112), rnd(c, 300)}
+		msgs := [][]byte{nil, {0}, rnd(c, 1), rnd(c, 31), rnd(c, 64), rnd(c, 111), rnd(c, 112), rnd(c, 300), rnd(c, 4033), rnd(c, 4065), rnd(c, 9000)}
 		for si := 0; si < nSeeds; si++ {
 			seed := rnd(c, 32)
 			priv := ed25519.NewKeyFromSeed(seed)
@@ -56,6 +57,9 @@ func runC15(c0 *h.Ctx) {
 						continue
 					}
 					msg := msgs[(ci+si+bi)%len(msgs)]
+					if len(msg) > 4000 && !(si == 0 && bi == 0) && !c.Thorough() {
+						msg = msgs[(ci+si+bi)%8] // long messages (fixed scratch buffers!) only for the first seed and blind in quick
+					}
 					det := map[string]any{"seed": h.Hex(seed), "blind": h.Hex(blind), "context": h.Hex(ctx), "message": h.Hex(msg)}
 					// the caller's slices sit in larger buffers with spare capacity (results must not depend on it)
 					blindArg := withSpareBuf(blind, 64, 0xa5)
@@ -149,6 +153,36 @@ func runC15(c0 *h.Ctx) {
 					}
 				}
 				prevBlind = blind
+			}
+			// blinds whose blinding factor has an inverse with leading zero bytes (about 1 in 6000): found by search
+			if si == 0 && part < 4 {
+				found := 0
+				for ctr := 0; found < 2 && ctr < 200000; ctr++ {
+					bl := sha256Bytes(cat(seed, []byte{byte(part)}, h.U64(uint64(ctr))))
+					ctx := []byte{byte(ctr)}
+					sum := sha512.Sum512(cat(bl, []byte{0}, ctx))
+					f := new(big.Int).Mod(ref.LE(sum[:32]), ref.EdL())
+					if f.Sign() == 0 {
+						continue
+					}
+					inv := new(big.Int).ModInverse(f, ref.EdL())
+					if inv.BitLen() > 240 {
+						continue
+					}
+					found++
+					pkB, err := ed25519.BlindPublicKeyWithContext(pub, bl, ctx)
+					c.Count("blind:short-inverse", 1, h.Hex(bl))
+					if err != nil {
+						continue
+					}
+					pkU, err := ed25519.UnblindPublicKeyWithContext(pkB, bl, ctx)
+					if err != nil || !bytes.Equal(pkU, pub) || !bytes.Equal(pkB, A.Mul(f).Encode()) {
+						c.Violation("unblinding inverts blinding (blinding factor whose inverse has leading zero bytes)", map[string]any{"seed": h.Hex(seed), "blind": h.Hex(bl), "context": h.Hex(ctx), "inverse_bits": inv.BitLen()})
+					}
+					if pkU2, err := ed25519.UnblindPublicKeyWithContext(pub, bl, ctx); err != nil || !bytes.Equal(pkU2, A.Mul(inv).Encode()) {
+						c.Violation("the unblinded key is the key multiplied by the inverse of the factor mod L (short inverse)", map[string]any{"blind": h.Hex(bl), "context": h.Hex(ctx)})
+					}
+				}
 			}
 			// two blinds cut from ONE buffer (the second right behind the first)
 			buf := rnd(c, 64)
